@@ -52,8 +52,10 @@ Choices(ctx, k, env) ==
                                                                    ELSE <<IF r.b = 1 THEN p[1] ELSE Z, IF r.b = 2 THEN p[2] ELSE Z>> >>
     [] r.t = "v" -> << m.v >>
     [] r.t = "att" -> ctx.att
-(* TLC re-evaluates a LET definition at every use, so every shared intermediate value below is bound by a     *)
-(* quantifier over a singleton set ({e : v \in {expensive}}): the bound identifier holds an evaluated value.  *)
+(* TLC keeps a function constructor [x \in S |-> e] as a lazy function and re-evaluates e at every            *)
+(* application, so every shared table below (Gram matrix, values of the leaf expressions, values of the       *)
+(* constraints) is bound by a quantifier over a singleton set - The({body : v \in {table}}) -: enumerating     *)
+(* the set evaluates the table once and the bound identifier holds the evaluated value.                       *)
 \* n: assignments evaluated; ov: assignments dropped because a leaf value left the 32-bit guard; unk: constraint / LMI
 \* evaluations whose value left the guard (not judged)
 ZeroAcc == [n |-> 0, ov |-> 0, unk |-> 0, bad |-> {}, tight |-> {}]
